@@ -783,6 +783,14 @@ static void do_op(struct op *p)
 		pthread_create(&thr[id], NULL, thread_body, (void *)(long)id);
 	} else if (!strcmp(n, "yield")) {
 		simk_yield();
+	} else if (!strcmp(n, "wait_flag")) {
+		/* flag 1 is set by timers of the main thread, which therefore never waits for it */
+		if (me == 0 && id < 2) { skip(n, id); goto out; }
+		tr("\"e\":\"FlagW\",\"n\":%d}", id);
+		simk_flag_wait(id);
+	} else if (!strcmp(n, "set_flag")) {
+		tr("\"e\":\"FlagS\",\"n\":%d}", id);
+		simk_flag_set(id);
 	} else if (!strcmp(n, "quit")) {
 		iv_quit();
 		alog(n, 0, 0, 0, 0, 0, 0);
